@@ -313,6 +313,9 @@ void hb_store(int me, uintptr_t a, uint64_t val, int mo, bool rmw, const Msg* re
   for (auto& kv : m.heads) { m.rel.join(kv.second.rel); vjoin(m.relview, kv.second.relview); m.has_rel = true; }
   if (m.has_rel) m.relview[a] = m.ts;
   L.msgs.push_back(m);
+  // everything the thread does AFTER this store gets a new epoch: an acquirer of this message is ordered after the accesses
+  // sequenced before the store only (FastTrack: L := C_t; C_t[t]++)
+  if (me >= 0 && me < MAXT) c.c[me]++;
 }
 
 // A load picks a message; returns pointer to the message read (nullptr if the location has no history).
@@ -324,6 +327,13 @@ const Msg* hb_load(int me, uintptr_t a, int mo, bool must_latest, uint64_t cur_v
   if (it == G_.alocs.end() || it->second.msgs.empty()) return nullptr;
   ALoc& L = it->second;
   View& vw = view_of(me);
+  if (L.msgs.back().val != cur_val) {
+    // the location was re-initialised by a non-atomic write since its last atomic store (an object constructed in reused
+    // memory, e.g. a node taken from a reclaimer's free list): the old history does not describe this object; start over
+    // with one initialisation message that carries no synchronisation (whoever reads it must be ordered by other means)
+    Msg im; im.val = cur_val; im.ts = ++G_.ts; im.step = G_.steps; im.tid = -1; im.has_rel = false;
+    L.msgs.clear(); L.msgs.push_back(im);
+  }
   if (mo == 5) vjoin(vw, G_.sc_view);
   size_t idx = L.msgs.size() - 1;
   if (G_.cfg.weak && !must_latest && me > 0) {
@@ -358,7 +368,7 @@ void hb_fence(int me, int mo) {
   Th* t = G_.th[me];
   if (is_acq(mo)) { t->vc.join(t->acq_pend); vjoin(t->view, t->acq_view); }
   if (mo == 5) { vjoin(t->view, G_.sc_view); G_.sc_view = t->view; }
-  if (is_rel(mo)) { t->vc.c[me]++; t->rel_fence = t->vc; t->rel_view = t->view; t->has_rel_fence = true; }
+  if (is_rel(mo)) { t->vc.c[me]++; t->rel_fence = t->vc; t->rel_view = t->view; t->has_rel_fence = true; t->vc.c[me]++; }
 }
 
 void hb_refresh_view(int, uintptr_t) {}
@@ -813,7 +823,7 @@ int model_unlock(pthread_mutex_t* m) {
   sched_point();
   RtGuard rg;
   G_.mutex_owner[m] = 0;
-  if (G_.cfg.race || G_.cfg.weak) { ALoc& L = G_.alocs[(uintptr_t)m]; Msg ms; ms.val = 0; ms.ts = ++G_.ts; ms.step = G_.steps; ms.tid = me; ms.has_rel = true; clock_of(me).c[me]++; ms.rel = clock_of(me); ms.relview = view_of(me); L.msgs.push_back(ms); }
+  if (G_.cfg.race || G_.cfg.weak) { ALoc& L = G_.alocs[(uintptr_t)m]; Msg ms; ms.val = 0; ms.ts = ++G_.ts; ms.step = G_.steps; ms.tid = me; ms.has_rel = true; clock_of(me).c[me]++; ms.rel = clock_of(me); ms.relview = view_of(me); L.msgs.push_back(ms); clock_of(me).c[me]++; }
   for (int i = 1; i <= G_.nth; i++) if (G_.th[i]->mutex_wait && G_.th[i]->waiting_mutex == m) { G_.th[i]->mutex_wait = 0; G_.th[i]->waiting_mutex = nullptr; }
   record(K_UNLOCK, (uintptr_t)m, 0, 0, 0, 0, 0);
   G_.th[me]->ro = 0; G_.th[me]->watch.clear();
